@@ -36,13 +36,17 @@ def spec_name_match(p, n):
 
 
 def spec_partition_match(a, b):
-    """DDS 1.4 2.2.3.13: the empty sequence is the partition ""; two endpoints match when some partition name of one
-    matches some name of the other; a name with wildcards is a pattern; two patterns never match each other"""
+    """DDS 1.4 2.2.3.13 as read here (notes/w2b.md, Follow-up 4): the empty sequence is the partition ""; two endpoints match when
+    some entry of one side matches some entry of the other; equal strings are equal names (also when they contain wildcards);
+    otherwise an entry with wildcards is an expression that is matched against the NAMES of the other side; two different
+    expressions are never matched against each other"""
     a = a or ["%e"]
     b = b or ["%e"]
     for x in a:
         for y in b:
             px, py = is_pattern(x), is_pattern(y)
+            if real(x) == real(y):
+                return True
             if px and py:
                 continue
             if px:
@@ -137,10 +141,12 @@ def scenario(pa, pb, topic_w="T", topic_r="T", reader_first=False):
 
 
 PART_CORPUS = [
-    # DESIGN 7.1 D20 (D20a repaired: [] matches the empty name and *; D20b, D20c open: A* matches A?, a+ matches aa)
+    # DESIGN 7.1 D20 (D20a, D20b repaired: [] matches the empty name and *, A* does not match A?; D20c open: a+ matches aa)
     scenario([], ["%e"]), scenario([], ["*"]), scenario(["%e"], ["*"]), scenario(["A*"], ["A?"]), scenario(["a+"], ["aa"]),
     scenario([], []), scenario(["A"], ["B", "A"]), scenario(["A"], ["B"]), scenario(["A1"], ["?1"]), scenario(["[a-b]1"], ["b1", "c1"]),
     scenario(["A"], ["A"], topic_w="T", topic_r="U"),
+    # D20b: identical expressions are equal names; different expressions never match, also next to a name one of them matches
+    scenario(["A*"], ["A*"]), scenario(["A*", "B"], ["A?", "c1"]), scenario(["A*"], ["A?", "A1"]), scenario(["?1", "A*"], ["[a-b]1"]),
     # exactly ONE of two names is matched by the other side's pattern, in both roles and both orders; one of two patterns matches
     scenario(["A1", "B"], ["A*"]), scenario(["B", "A1"], ["A*"]), scenario(["A*"], ["A1", "B"]), scenario(["A*"], ["B", "A1"]),
     scenario(["A1"], ["[a-b]1", "A*"]), scenario(["[a-b]1", "A*"], ["A1"]), scenario(["B", "c1"], ["A*"]), scenario(["A*"], ["B", "c1"]),
@@ -249,7 +255,7 @@ def partition_oracle(case, out):
                 if n == 0 and want and (not pa) != (not pb):
                     v["cause"] = CAUSE_EMPTY            # D20a (repaired: a label only, nothing is suppressed)
                 elif n == 1 and not want and any(is_pattern(x) for x in pa) and any(is_pattern(x) for x in pb):
-                    v["cause"] = CAUSE_PATTERN          # D20b (open)
+                    v["cause"] = CAUSE_PATTERN          # D20b (repaired: a label only, nothing is suppressed)
                 elif n == 1 and not want and any("+" in x for x in pa + pb):
                     v["cause"] = CAUSE_PLUS             # D20c (open)
             viol.append(v)
